@@ -22,6 +22,7 @@ pub mod c13;
 pub mod c14;
 pub mod c15;
 pub mod c16;
+pub mod c17;
 pub mod c18;
 pub mod c19;
 pub mod common;
@@ -52,6 +53,7 @@ fn build(ctx: &Ctx) -> Option<Check> {
         "C14" => c14::check(ctx),
         "C15" => c15::check(ctx),
         "C16" => c16::check(ctx),
+        "C17" => c17::check(ctx),
         "C18" => c18::check(ctx),
         "C19" => c19::check(ctx),
         _ => return None,
